@@ -240,11 +240,15 @@ def tlc(ctx, module, cfg, files=(), workers=None, timeout=600, simulate=None, de
     return res
 
 
+TLAPS_LIB = "/opt/veriftools/tlapm/lib/tlapm/stdlib"      # TLAPS.tla lives in the proof system's library, not in tla2tools
+
+
 def sany_all():
     bad = []
     for f in sorted(os.listdir(SPEC)):
         if f.endswith(".tla"):
-            r = subprocess.run(["java", "-cp", TLA_CP, "tla2sany.SANY", f], cwd=SPEC, capture_output=True, text=True)
+            jopts = ["-DTLA-Library=" + TLAPS_LIB] if "TLAPS" in open(os.path.join(SPEC, f)).read().split("====")[0].split("EXTENDS", 1)[-1].split("\n")[0] else []
+            r = subprocess.run(["java"] + jopts + ["-cp", TLA_CP, "tla2sany.SANY", f], cwd=SPEC, capture_output=True, text=True)
             if "Semantic errors" in r.stdout or "Parse Error" in r.stdout or "Fatal" in r.stdout or r.returncode != 0:
                 bad.append((f, r.stdout[-1500:]))
     return bad
